@@ -92,13 +92,15 @@ RUNS_LEVEL = None      # optional top-level `runs:` settings (e.g. parallel_inte
 def raw_config(specs):
     executors, suites = {}, {}
     for s in specs:
-        e = executors.setdefault("E_" + s.exe, {"path": s.exe_path, "executable": s.exe_file})
+        # (a directory may be spelled in another way than its canonical name: /x/, /x/., /y/../x)
+        e = executors.setdefault("E_" + s.exe, {"path": getattr(s, "exe_path_spelled", None) or s.exe_path, "executable": s.exe_file})
         if s.exe_build:
             e["build"] = [s.exe_build]
         if s.exe_env is not None:
             e["env"] = s.exe_env
         su = suites.setdefault(s.suite, {"gauge_adapter": s.adapter if s.adapter is not None else ("RebenchLog" if s.adapter_ok else "NoSuchAdapter"),
-                                         "command": "%(benchmark)s %(invocation)s", "benchmarks": [], "location": s.suite_loc})
+                                         "command": "%(benchmark)s %(invocation)s", "benchmarks": [],
+                                         "location": getattr(s, "suite_loc_spelled", None) or s.suite_loc})
         if s.suite_build:
             su["build"] = [s.suite_build]
         if s.suite_env is not None:
